@@ -24,9 +24,56 @@ type PtrTarget struct {
 	G   *Term
 	Obj *Object // nil: nil pointer
 	Idx int     // -1: whole object
+	Sub string  // path of field indices inside a struct value held by the cell ("" = the cell itself), e.g. ".2.0"
 }
 
 type PtrVal struct{ T []PtrTarget }
+
+// StructVal: a struct held by value (in a register, a cell, a slice element or a map entry).
+type StructVal struct {
+	Typ types.Type
+	F   []Value
+}
+
+func (s *StructVal) clone() *StructVal {
+	return &StructVal{Typ: s.Typ, F: append([]Value(nil), s.F...)}
+}
+
+// subPath parses a PtrTarget.Sub path.
+func subPath(sub string) []int {
+	var out []int
+	n, in := 0, false
+	for i := 0; i <= len(sub); i++ {
+		if i == len(sub) || sub[i] == '.' {
+			if in {
+				out = append(out, n)
+			}
+			n, in = 0, false
+			continue
+		}
+		n = n*10 + int(sub[i]-'0')
+		in = true
+	}
+	return out
+}
+
+// subGet reads the value at path inside v.
+func subGet(v Value, path []int) Value {
+	for _, i := range path {
+		v = v.(*StructVal).F[i]
+	}
+	return v
+}
+
+// subSet returns v with the value at path replaced by f(old).
+func subSet(v Value, path []int, f func(Value) Value) Value {
+	if len(path) == 0 {
+		return f(v)
+	}
+	s := v.(*StructVal).clone()
+	s.F[path[0]] = subSet(s.F[path[0]], path[1:], f)
+	return s
+}
 
 type SliceVal struct {
 	Elems []Value
@@ -106,9 +153,9 @@ func (h *Heap) newObj(kind ObjKind, typ types.Type, ncells int, name string) *Ob
 	return o
 }
 
-func nilPtr() *PtrVal { return &PtrVal{T: []PtrTarget{{True, nil, -1}}} }
+func nilPtr() *PtrVal { return &PtrVal{T: []PtrTarget{{G: True, Obj: nil, Idx: -1}}} }
 func ptrTo(o *Object, idx int) *PtrVal {
-	return &PtrVal{T: []PtrTarget{{True, o, idx}}}
+	return &PtrVal{T: []PtrTarget{{G: True, Obj: o, Idx: idx}}}
 }
 
 func (p *PtrVal) isNilTerm() *Term {
@@ -125,6 +172,7 @@ func normPtr(ts []PtrTarget) *PtrVal {
 	type key struct {
 		o   *Object
 		idx int
+		sub string
 	}
 	idx := map[key]int{}
 	var out []PtrTarget
@@ -132,7 +180,7 @@ func normPtr(ts []PtrTarget) *PtrVal {
 		if t.G.IsFalse() {
 			continue
 		}
-		k := key{t.Obj, t.Idx}
+		k := key{t.Obj, t.Idx, t.Sub}
 		if j, ok := idx[k]; ok {
 			out[j].G = Or(out[j].G, t.G)
 		} else {
@@ -153,7 +201,7 @@ func ptrEq(a, b *PtrVal) *Term {
 	var ds []*Term
 	for _, x := range a.T {
 		for _, y := range b.T {
-			if x.Obj == y.Obj && x.Idx == y.Idx {
+			if x.Obj == y.Obj && x.Idx == y.Idx && x.Sub == y.Sub {
 				ds = append(ds, And(x.G, y.G))
 			}
 		}
@@ -219,10 +267,10 @@ func iteValue(c *Term, a, b Value) Value {
 		var ts []PtrTarget
 		nc := Not(c)
 		for _, t := range x.T {
-			ts = append(ts, PtrTarget{And(c, t.G), t.Obj, t.Idx})
+			ts = append(ts, PtrTarget{And(c, t.G), t.Obj, t.Idx, t.Sub})
 		}
 		for _, t := range y.T {
-			ts = append(ts, PtrTarget{And(nc, t.G), t.Obj, t.Idx})
+			ts = append(ts, PtrTarget{And(nc, t.G), t.Obj, t.Idx, t.Sub})
 		}
 		return normPtr(ts)
 	case *SliceVal:
@@ -326,6 +374,14 @@ func iteValue(c *Term, a, b Value) Value {
 		}
 		return r
 	}
+	if x, ok := a.(*StructVal); ok {
+		y := b.(*StructVal)
+		r := &StructVal{Typ: x.Typ, F: make([]Value, len(x.F))}
+		for i := range x.F {
+			r.F[i] = iteValue(c, x.F[i], y.F[i])
+		}
+		return r
+	}
 	panic(fmt.Sprintf("iteValue: unhandled %T", a))
 }
 
@@ -406,6 +462,17 @@ func valuesDiffer(a, b Value) *Term {
 		var ds []*Term
 		for i := range x.Args {
 			ds = append(ds, valuesDiffer(x.Args[i], y.Args[i]))
+		}
+		return Or(ds...)
+	}
+	if x, ok := a.(*StructVal); ok {
+		y, ok := b.(*StructVal)
+		if !ok || len(x.F) != len(y.F) {
+			return True
+		}
+		var ds []*Term
+		for i := range x.F {
+			ds = append(ds, valuesDiffer(x.F[i], y.F[i]))
 		}
 		return Or(ds...)
 	}
